@@ -2261,6 +2261,13 @@ impl RaftNode {
         for entry in entries {
             let logical_len = persistent.array_len_as_log_index();
             if entry.index > logical_len {
+                // Only the direct successor of the local log may be appended. A later
+                // index means the sender's prev entry was compacted away, so the
+                // consistency check could not see that this log is too short; pushing
+                // the entry would store it at the wrong position.
+                if entry.index != logical_len + 1 {
+                    return false;
+                }
                 persistent.log.push(entry.clone());
                 if self.persist_log_entry(entry).is_err() {
                     return false;
